@@ -40,6 +40,9 @@ WIDTH = {'b': 1, 's': 2, 'u': 2, 'I': 4, 'i': 4, 'l': 8}
 def place(n, pos):
     if pos == 'top':
         return 'value', n
+    if pos == 'int-subclass':            # e.g. an enum.IntEnum / IntFlag member
+        sub_ = canon.IntSub(n)
+        return 'array', [sub_, {'k': sub_, 'j': [sub_]}]
     if pos == 'after-equal-float':       # a numerically equal float / Decimal / bool first
         import decimal
         twins = []
@@ -91,7 +94,7 @@ def verify(n, pos, legacy, how):
                         (n, data[:12].hex()))
     tags = [t for t in refcodec.walk_tags(data, 0, kind) if t in INT_TAGS]
     expect = place(n, pos)
-    count = sum(1 for x in S.walk(expect[1]) if type(x) is int)
+    count = sum(1 for x in S.walk(expect[1]) if type(x) in (int, canon.IntSub))
     if len(tags) != count or any(t != want[0] for t in tags):
         raise Violation('tag:%s:%s' % ('legacy' if legacy else 'default', want[0]),
                         'integer %d at %s with legacy=%s (via %s): tags %r, expected '
@@ -115,7 +118,7 @@ def with_mode(mode, fn):
         encode.support_deprecated_rabbitmq(False)
 
 
-POSITIONS = ['top', 'array', 'table', 'nested', 'after-equal-float']
+POSITIONS = ['top', 'array', 'table', 'nested', 'after-equal-float', 'int-subclass']
 MODES = ['default', 'legacy-arg', 'legacy-noarg']
 
 
@@ -144,7 +147,7 @@ def ladder_bulk(tier, shard, nshards, rec):
             for k, v in enumerate(mine):
                 if k % 1024 == 0:
                     set_logging(k % 2048 == 0)
-                pos = POSITIONS[k % 5]
+                pos = POSITIONS[k % 6]
                 n += 1
                 if S.near_edge(v) or (legacy and pos == 'nested'):
                     nt += 1
